@@ -313,8 +313,21 @@ def check_at(path, case):
                                                    case["sections"], case["numbering"]),
                                 cls="bond-graph:" + ("repeat" if case["layout"].startswith("repeat") else case["numbering"]))
     if case["n"] % 3 == 0:
-        with open(path) as fobj:                      # an opened file is accepted as well
-            top = lib("load", MoleculeTop, fobj)
+        import os
+        with open(path) as fobj, open(path) as fobj2:                      # an opened file is accepted as well
+            stale = case["n"] % 2 == 1
+            if stale:
+                # ... and is what gets read, also when the name it was opened under belongs to another file by now
+                os.rename(path, path + ".real")
+                with open(path, "w") as f:
+                    f.write("[ moleculetype ]\nDECOY 1\n\n[ atoms ]\n1 C 1 DEC X1 1 0.0 12.0\n2 C 1 DEC X2 2 0.0 12.0\n")
+            try:
+                top = lib("load", MoleculeTop, fobj)
+                if stale and lib("read", read_topology, fobj2)[0] != case["name"]:
+                    raise PropertyViolation("name", "read_topology(opened file) did not read the opened file")
+            finally:
+                if stale:
+                    os.replace(path + ".real", path)
     else:
         top = lib("load", MoleculeTop, path)
     # residue view of the same atoms: consecutive atoms with equal (name, number) form one residue
